@@ -74,13 +74,13 @@ VARIANTS += [
 ]
 
 VARIANTS += [
-    dict(id="c19-heartbeat-from-worker-clock", prop="C19", file=RDB, expect="R19.6",
+    dict(id="c19-heartbeat-from-worker-clock", prop="C19", file=RDB, expect="R19.7",
          old="                heartbeat.heartbeat = session.execute(sqlalchemy.func.now()).scalar()\n",
          new="                heartbeat.heartbeat = datetime.now()\n"),
-    dict(id="c19-stale-now-from-worker-clock", prop="C19", file=RDB, expect="R19.6",
+    dict(id="c19-stale-now-from-worker-clock", prop="C19", file=RDB, expect="R19.7",
          old="            current_heartbeat = session.execute(sqlalchemy.func.now()).scalar()\n            assert current_heartbeat is not None\n",
          new="            current_heartbeat = datetime.utcnow()\n            assert current_heartbeat is not None\n"),
-    dict(id="c19-first-beat-explicit-local-time", prop="C19", file=RDB, expect="R19.6",
+    dict(id="c19-first-beat-explicit-local-time", prop="C19", file=RDB, expect="R19.7",
          old="                heartbeat = models.TrialHeartbeatModel(trial_id=trial_id)\n",
          new="                heartbeat = models.TrialHeartbeatModel(trial_id=trial_id, heartbeat=datetime.now())\n"),
 ]
